@@ -621,7 +621,13 @@ def rand_big_agg(rng):
         return agg([DBL, DBL, FLT])
     if kind == 3:
         return union_of(arr(LONG, 3), DBL)
-    return agg([arr(CHAR, rng.choice([17, 24, 33, 100]))])
+    # sizes of every residue modulo 8 (copies by pieces of 8/4/2/1 bytes have a tail case per residue)
+    x = rng.random()
+    if x < 0.5:
+        return agg([arr(CHAR, rng.choice([17, 24, 33, 100] + list(range(17, 41))))])
+    if x < 0.75:
+        return agg([arr(CHAR, rng.choice([1, 2, 3, 5, 7])), arr(CHAR, rng.choice([16, 17, 20, 30, 32]))])
+    return agg([arr(SHORT, rng.choice([9, 11, 13, 15, 17]))] + ([CHAR] if rng.random() < 0.3 else []))
 
 
 def empty_agg(rng):
